@@ -122,6 +122,9 @@ def r1_1(model: Model, rep: Report, rule: str = "R1.1") -> None:
         rep.refuted(rule, cons, "identify() deviates from the published ID algorithm: " + short(detail, 900), loc(f), sample=sample)
     else:
         rep.unknown(rule, cons, detail, loc(f))
+    # line 3's W is read off two graph routines, which the comparison above treats as given: they are held to their definitions here
+    from . import c14 as _c14
+    _c14.intervened_ancestor_rows(model, rep, rule)
 
 
 def r1_0(model: Model, rep: Report) -> None:
